@@ -3,7 +3,7 @@ from __future__ import annotations
 import typing
 import warnings
 
-from urwid.canvas import CompositeCanvas
+from urwid.canvas import CompositeCanvas, SolidCanvas
 from urwid.split_repr import remove_defaults
 from urwid.util import int_scale
 
@@ -241,6 +241,11 @@ class Filler(WidgetDecoration[WrappedWidget]):
 
         if self.height_type == WHSettings.PACK:
             canv = self._original_widget.render((maxcol,), focus)
+        elif maxrow - top - bottom <= 0:
+            # the fixed top / bottom filler or a relative height rounded down to 0 leave no row for the body
+            canv = CompositeCanvas(SolidCanvas(" ", maxcol, maxrow))
+            canv.set_depends([self._original_widget])
+            return canv
         else:
             canv = self._original_widget.render((maxcol, maxrow - top - bottom), focus)
         canv = CompositeCanvas(canv)
